@@ -269,7 +269,7 @@ class Encoder:
             vi = self.ring.var("R%d" % len(self.root_cache), "root")
             self.root_cache[k] = vi
             x = self.ring.evalf(rad, self.vals)
-            self.vals[vi] = math.sqrt(x) if n == 2 else math.copysign(abs(x) ** (1.0 / 3), x)
+            self.vals[vi] = math.sqrt(max(x, 0.0)) if n == 2 else math.copysign(abs(x) ** (1.0 / 3), x)   # radicand exactly 0 may evaluate to -1e-17
             d = [Constraint(1, P.sub({((vi, n),): Fraction(1)}, rad), "R^%d=rad" % n)]
             if n == 2:
                 d.append(Constraint(3, self.ring.v(vi), "R>=0"))
